@@ -81,11 +81,11 @@ CHECKS.update({
         text="On every iteration observed (all schedulers, all predecessor kinds): the body found a fresh world, no instrumented value survived its execution, cleanup left no labels/tags/storage, initialisers ran once, and the iteration equalled the stand-alone replay of its recorded schedule.",
         ref="DESIGN.md §4 C14", note="trusted: hook H3 (post-cleanup residue counts); live-instance counter is a std thread-local of the runner's OS thread"),
     "C17": dict(
-        technique="runtime monitoring: every task's top-level future wrapped so that all polls and all invocations of its waker (user code, JoinHandle completion, yields) are logged; offline checker for lost wake-ups, phantom polls, JoinHandle/abort/detach rules over generated async programs",
+        technique="runtime monitoring: every task's top-level future wrapped so that all polls and all invocations of its waker (user code, JoinHandle completion, yields) are logged; offline checker for lost wake-ups, phantom polls, JoinHandle/abort/detach rules over generated async programs; sanitizers: a slice of the async programs and semaphore scripts under valgrind memcheck (quick) and AddressSanitizer (thorough)",
         text="On every observed execution of the generated async programs: no task was left un-polled after a wake at/after its last poll, none was polled repeatedly without a wake, JoinHandles yielded the task's own output after completion or Cancelled only after an abort with the future already dropped, aborted tasks took no further steps, detached tasks were not destroyed early, all-pending programs were reported as deadlocks.",
         ref="DESIGN.md §4 C17", note="one stale re-poll per wake (the executor's `woken` flag) is tolerated"),
     "C18": dict(
-        technique="runtime monitoring: scripted, hand-polled Acquire futures on a strictly fair BatchSemaphore with every step validated against a FIFO counting model and against the semaphore's internal queue/flags (verif hook); blocking programs in both fairness modes against the reference model; exhaustively enumerated cancellation/move scenarios",
+        technique="runtime monitoring: scripted, hand-polled Acquire futures on a strictly fair BatchSemaphore with every step validated against a FIFO counting model and against the semaphore's internal queue/flags (verif hook); blocking programs in both fairness modes against the reference model; exhaustively enumerated cancellation/move scenarios; sanitizers: the same async slice under valgrind memcheck (quick) and AddressSanitizer (thorough)",
         text="Every scripted step agreed with the model in result, wake-ups, available permits and internal queue; blocking programs in both fairness modes produced only allowed outcomes; the cancellation, moved-future and close scenarios passed on every schedule.",
         ref="DESIGN.md §4 C18", note="trusted: hook H2 (read-only snapshot); manually polled Acquires on an unfair semaphore are not driven (unsupported use)"),
     "C19": dict(
